@@ -21,8 +21,19 @@ INT_BITS = {"u8": 8, "i8": 8, "u16": 16, "i16": 16, "u32": 32, "i32": 32, "u64":
 SIGNED = {"i8", "i16", "i32", "i64", "isize", "i128"}
 
 
+FLOAT_SORT = {"f32": z3.Float32, "f64": z3.Float64}
+
+
 def is_scalar_ty(t):
-    return t in INT_BITS or t == "bool"
+    return t in INT_BITS or t == "bool" or t in FLOAT_SORT
+
+
+def scalar_var(name, ty):
+    if ty == "bool":
+        return z3.Bool(name)
+    if ty in FLOAT_SORT:
+        return z3.FP(name, FLOAT_SORT[ty]())
+    return z3.BitVec(name, INT_BITS[ty])
 
 
 class Sym:
@@ -316,9 +327,7 @@ class Executor:
 
     def fresh_scalar(self, ty, label):
         n = f"{label}#{next(self.oid_counter)}"
-        if ty == "bool":
-            return Sym(z3.Bool(n), "bool")
-        return Sym(z3.BitVec(n, INT_BITS[ty]), ty)
+        return Sym(scalar_var(n, ty), ty)
 
     def lazy_child(self, st, lz, key, ty, labelsuffix):
         ov = st.over.get((lz.oid, key)) if st is not None else None
@@ -336,9 +345,7 @@ class Executor:
         ty = (ty or "?").strip()
         if is_scalar_ty(ty):
             n = f"{label}@{lz.oid}"
-            if ty == "bool":
-                return Sym(z3.Bool(n), "bool")
-            return Sym(z3.BitVec(n, INT_BITS[ty]), ty)
+            return Sym(scalar_var(n, ty), ty)
         if ty == "()":
             return UNIT
         ch = Lazy(next(self.oid_counter), ty, label, lz.depth + (1 if key[0] in ("deref", "field", "vfield") else 0), dict(lz.tags))
@@ -593,6 +600,9 @@ class Executor:
         m = re.fullmatch(r"(-?\d+)_(u8|u16|u32|u64|u128|usize|i8|i16|i32|i64|i128|isize)", t)
         if m:
             return Sym(z3.BitVecVal(int(m.group(1)), INT_BITS[m.group(2)]), m.group(2))
+        m = re.fullmatch(r"(-?[0-9.]+(?:[eE][-+]?\d+)?)(f32|f64)", t)
+        if m:
+            return Sym(z3.FPVal(float(m.group(1)), FLOAT_SORT[m.group(2)]()), m.group(2))
         if t.startswith('"') and t.endswith('"'):
             return Str(decode_rust_str(t[1:-1]))
         if t.startswith("'") and t.endswith("'"):
@@ -762,6 +772,20 @@ class Executor:
                 return Sym(z3.BoolVal(same if op == "Eq" else not same), "bool")
             raise Inconclusive(f"binop {op} on {a!r},{b!r}")
         x, y = a.t, b.t
+        if a.ty in FLOAT_SORT and b.ty in FLOAT_SORT:
+            # IEEE-754 semantics (round to nearest even), as rustc compiles f32/f64 arithmetic
+            rm = z3.RNE()
+            if op == "Eq": return Sym(z3.fpEQ(x, y), "bool")
+            if op == "Ne": return Sym(z3.Not(z3.fpEQ(x, y)), "bool")
+            if op == "Lt": return Sym(z3.fpLT(x, y), "bool")
+            if op == "Le": return Sym(z3.fpLEQ(x, y), "bool")
+            if op == "Gt": return Sym(z3.fpGT(x, y), "bool")
+            if op == "Ge": return Sym(z3.fpGEQ(x, y), "bool")
+            if op == "Add": return Sym(z3.fpAdd(rm, x, y), a.ty)
+            if op == "Sub": return Sym(z3.fpSub(rm, x, y), a.ty)
+            if op == "Mul": return Sym(z3.fpMul(rm, x, y), a.ty)
+            if op == "Div": return Sym(z3.fpDiv(rm, x, y), a.ty)
+            raise Inconclusive("float binop " + op)
         if x.size() != y.size():
             if op in ("Shl", "Shr", "ShlUnchecked", "ShrUnchecked"):
                 y = z3.ZeroExt(x.size() - y.size(), y) if y.size() < x.size() else z3.Extract(x.size() - 1, 0, y)
